@@ -207,7 +207,7 @@ def report(u, uni, viols):
     known = known_findings(PID)
     fails = 0
     for inv, r in viols:
-        case = {"u": u, "universe": uni, "arms": r["arms"], "form": r["form"], "src": r["src"]}
+        case = {"u": u, "universe": uni, "arms": r["arms"], "form": r["form"], "src": r["src"], "mm": r.get("mm", "")}
         observed = {"violated": inv, "diagnostic_non_exhaustive": r["obs"]["nonexh"],
                     "counterexample": r["obs"]["cextext"], "diagnostic_irrefutable": r["obs"]["useless"],
                     "panic": r["obs"]["panic"], "semantics_says_exhaustive": r["exp"]["exh"],
@@ -286,9 +286,9 @@ def replay(path):
     d = outdir(PID)
     cf, of = os.path.join(d, "cases-replay.ndjson"), os.path.join(d, "obs-replay.ndjson")
     # expectation fields are informative only; the verdict is recomputed by PatternsTrace.tla
-    write_ndjson(cf, [uni, {"u": u, "arms": case["arms"], "exh": False, "irr": False}])
+    write_ndjson(cf, [uni, {"u": u, "arms": case["arms"], "exh": False, "irr": False, "mm": case.get("mm", "")}])
     vh(["patterns-replay", "--cases", cf, "--out", of])
-    rows = [r for r in read_ndjson(of) if r["form"] == case["form"]]
+    rows = [r for r in read_ndjson(of) if r["form"] == case["form"] and (not case.get("mm") or r.get("mm") == case["mm"])]
     viols, _, _ = judge_chunk(u, rows, "replay")
     for inv, r in viols:
         log(f"violation: {inv}: {r['src']} -> {r['obs']}")
